@@ -4,6 +4,7 @@ import (
 	"errors"
 	"fmt"
 	"strconv"
+	"sync"
 
 	"log/slog"
 
@@ -36,6 +37,7 @@ type api struct {
 	sq         chan *bus.SQE[t_api.Request, t_api.Response]
 	buffer     *bus.SQE[t_api.Request, t_api.Response]
 	subsystems []Subsystem
+	mu         sync.RWMutex // orders Shutdown against the check-then-enqueue of EnqueueSQE
 	done       bool
 	errors     chan error
 	metrics    *metrics.Metrics
@@ -95,10 +97,16 @@ func (a *api) Stop() error {
 }
 
 func (a *api) Shutdown() {
+	a.mu.Lock()
+	defer a.mu.Unlock()
+
 	a.done = true
 }
 
 func (a *api) Done() bool {
+	a.mu.RLock()
+	defer a.mu.RUnlock()
+
 	return a.done && len(a.sq) == 0
 }
 
@@ -163,14 +171,23 @@ func (a *api) EnqueueSQE(sqe *bus.SQE[t_api.Request, t_api.Response]) {
 
 	// we must wait to close the channel because even in a select
 	// sending to a closed channel will panic
+	//
+	// the check and the enqueue happen under the read lock that Shutdown
+	// excludes: a request that saw done == false is in the queue before done
+	// becomes true, so the loop still answers it before it exits (and nothing
+	// is sent to the queue once it may be closed)
+	a.mu.RLock()
 	if a.done {
+		a.mu.RUnlock()
 		sqe.Callback(nil, t_api.NewError(t_api.StatusSystemShuttingDown, nil))
 		return
 	}
 
 	select {
 	case a.sq <- sqe:
+		a.mu.RUnlock()
 	default:
+		a.mu.RUnlock()
 		sqe.Callback(nil, t_api.NewError(t_api.StatusAPISubmissionQueueFull, nil))
 	}
 }
